@@ -43,10 +43,10 @@ Addr == 0..(NADDR - 1)
 PageOf(a) == a \div PAGE
 OffOf(a) == a % PAGE
 
-VARIABLES segs, pages, flat, hasFlat, decided, mode, abs, dev, steps, h, lastRes
-vars == <<segs, pages, flat, hasFlat, decided, mode, abs, dev, steps, h, lastRes>>
+VARIABLES segs, pages, flat, hasFlat, decided, mode, abs, dev, steps, h, lastRes, touched
+vars == <<segs, pages, flat, hasFlat, decided, mode, abs, dev, steps, h, lastRes, touched>>
 \* the history is only for emission; it is hidden from the fingerprint in exhaustive runs
-ViewNoHist == <<segs, pages, flat, hasFlat, decided, mode, abs, dev, steps, lastRes>>
+ViewNoHist == <<segs, pages, flat, hasFlat, decided, mode, abs, dev, steps, lastRes, touched>>
 
 InSeg(a) == \E i \in 1..Len(segs) : segs[i][1] <= a /\ a < segs[i][2]
 
@@ -85,7 +85,7 @@ FlipVal(v, b) == IF (v \div (IF b = 0 THEN 1 ELSE 2)) % 2 = 1 THEN v - (IF b = 0
 Init ==
     /\ segs = <<>> /\ pages = <<>> /\ flat = <<>> /\ hasFlat = FALSE /\ decided = FALSE
     /\ mode \in Modes
-    /\ abs = <<>> /\ dev = <<>> /\ steps = 0 /\ h = <<>> /\ lastRes = NONE
+    /\ abs = <<>> /\ dev = <<>> /\ steps = 0 /\ h = <<>> /\ lastRes = NONE /\ touched = {}
 
 \* the whole segment list of one geometry is added, in the given order, before anything else
 AddSegments ==
@@ -95,6 +95,7 @@ AddSegments ==
          /\ abs' = [a \in {x \in Addr : \E i \in 1..Len(g) : g[i][1] <= x /\ x < g[i][2]} |-> 0]
          /\ h' = Append(h, [op |-> "segs", g |-> g])
     /\ UNCHANGED <<pages, flat, hasFlat, decided, mode, dev, steps, lastRes>>
+    /\ touched' = {}
 
 \* set_words before the run: fjm_run loads in-segment words only (page-backed)
 Load(a, v) ==
@@ -105,6 +106,7 @@ Load(a, v) ==
     /\ steps' = steps + 1
     /\ h' = Append(h, [op |-> "load", a |-> a, v |-> v])
     /\ UNCHANGED <<segs, flat, hasFlat, decided, mode, dev, lastRes>>
+    /\ touched' = {}
 
 \* mem_decide_storage
 Decide(limit, noFlat) ==
@@ -123,6 +125,7 @@ Decide(limit, noFlat) ==
                              ELSE 0]
     /\ h' = Append(h, [op |-> "decide", limit |-> limit, noflat |-> noFlat])
     /\ UNCHANGED <<segs, pages, mode, abs, dev, lastRes>>
+    /\ touched' = {}
 
 InFlat(a) == hasFlat /\ a \in DOMAIN flat
 
@@ -138,6 +141,7 @@ ProgRead(a) ==
                /\ lastRes' = IF AccessOK(ps[PageOf(a)], a) THEN ps[PageOf(a)].words[OffOf(a)] ELSE FAULT
     /\ h' = Append(h, [op |-> "read", a |-> a])
     /\ UNCHANGED <<segs, flat, hasFlat, decided, mode, abs, dev>>
+    /\ touched' = {}
 
 \* mem_flip_bit
 ProgFlip(a, b) ==
@@ -156,6 +160,7 @@ ProgFlip(a, b) ==
     /\ abs' = IF InSeg(a) THEN [abs EXCEPT ![a] = FlipVal(@, b)] ELSE abs
     /\ h' = Append(h, [op |-> "flip", a |-> a, b |-> b])
     /\ UNCHANGED <<segs, hasFlat, decided, mode, dev>>
+    /\ touched' = {}
 
 \* Memory.get_word / set_word (the device accessors)
 ApiRoutesFlat(a) == InFlat(a) /\ InSeg(a)
@@ -166,8 +171,9 @@ ApiGet(a) ==
     /\ steps' = steps + 1
     /\ lastRes' = ApiView(a)
     /\ pages' = IF ApiRoutesFlat(a) THEN pages ELSE PagesWith(PageOf(a))
-    /\ h' = Append(h, [op |-> "get", a |-> a])
+    /\ h' = Append(h, [op |-> "get", a |-> a, res |-> ApiView(a)])
     /\ UNCHANGED <<segs, flat, hasFlat, decided, mode, abs, dev>>
+    /\ touched' = {}
 ApiSet(a, v) ==
     /\ ApiOn /\ decided /\ steps < MaxSteps
     /\ steps' = steps + 1
@@ -179,8 +185,23 @@ ApiSet(a, v) ==
                    ELSE dev' = (a :> v) @@ dev /\ UNCHANGED abs
     /\ h' = Append(h, [op |-> "set", a |-> a, v |-> v])
     /\ UNCHANGED <<segs, hasFlat, decided, mode>>
+    /\ touched' = {}
+
+\* the run loops' op fetch on the flat lane (run_flat_loop_impl / the flat lane of run_paged_loop_impl):
+\* the two words of an aligned op are read straight from the array only if BOTH indices are inside it
+\* (guard `word_address + 1 >= flat_count -> cold path`); the cold path goes through ProgRead's routing.
+\* `touched` is the set of raw array indices the fast path dereferences - the memory-safety obligation.
+FetchOpFlat(a) ==
+    /\ decided /\ hasFlat /\ steps < MaxSteps
+    /\ steps' = steps + 1
+    /\ LET fast == ~(a + 1 >= Cardinality(DOMAIN flat))
+       IN touched' = IF fast THEN {a, a + 1} ELSE {}
+    /\ lastRes' = NONE
+    /\ h' = Append(h, [op |-> "fetch", a |-> a])
+    /\ UNCHANGED <<segs, pages, flat, hasFlat, decided, mode, abs, dev>>
 
 Next ==
+    \/ \E a \in Addr : FetchOpFlat(a)
     \/ AddSegments
     \/ \E a \in Addr, v \in Values : Load(a, v)
     \/ \E l \in Limits, nf \in BOOLEAN : Decide(l, nf)
@@ -220,6 +241,9 @@ ResultMatches ==
                [] e.op = "flip" -> lastRes' = (IF InSeg(e.a) THEN OK ELSE FAULT)
                [] e.op = "get"  -> lastRes' = DevAbsView(e.a)
                [] OTHER -> TRUE ]_vars
+
+\* memory safety of the fast path: every raw array index is inside the flat allocation
+AllIndicesInBounds == \A i \in touched : hasFlat /\ i \in DOMAIN flat
 
 \* emission of scenarios (for the scaled replay into the real engine)
 Emit == IF EmitOn /\ decided /\ steps = MaxSteps
